@@ -2,6 +2,7 @@ package html
 
 import (
 	"io"
+	"sync"
 
 	"github.com/elliotchance/gedcom/v39"
 	"github.com/elliotchance/gedcom/v39/html/core"
@@ -118,17 +119,26 @@ func (c *PublishHeader) WriteHTMLTo(w io.Writer) (int64, error) {
 	).WriteHTMLTo(w)
 }
 
-var surnames = gedcom.NewStringSet()
+// surnamesCache holds the surnames of each document that has been published.
+// It must be keyed by the document: a single set shared by all documents
+// would show the surnames of the first document on the pages of every later
+// one. map[*gedcom.Document]*gedcom.StringSet
+var surnamesCache sync.Map
 
 func getSurnames(document *gedcom.Document) *gedcom.StringSet {
-	if surnames.Len() == 0 {
-		for _, individual := range document.Individuals() {
-			surname := individual.Name().Surname()
-			if surname != "" {
-				surnames.Add(surname)
-			}
+	if cached, ok := surnamesCache.Load(document); ok {
+		return cached.(*gedcom.StringSet)
+	}
+
+	surnames := gedcom.NewStringSet()
+	for _, individual := range document.Individuals() {
+		surname := individual.Name().Surname()
+		if surname != "" {
+			surnames.Add(surname)
 		}
 	}
+
+	surnamesCache.Store(document, surnames)
 
 	return surnames
 }
